@@ -8,6 +8,7 @@ import (
 	"strings"
 
 	cd "github.com/go-kid/ioc/component_definition"
+	"github.com/go-kid/ioc/container/processors"
 
 	"verif/internal/core"
 	"verif/internal/envx"
@@ -27,6 +28,7 @@ func init() {
 			{Name: "totality", Run: c19Total, QuickS: 60, ThoroughS: 600},
 			{Name: "totality-starts", Run: c19Starts, QuickS: 60, ThoroughS: 600},
 			{Name: "faithful", Run: c19Faithful, QuickS: 60, ThoroughS: 600},
+			{Name: "scanned-points", Run: c19Points, QuickS: 30, ThoroughS: 60},
 		},
 	})
 }
@@ -345,6 +347,108 @@ func c19Faithful(c *core.Ctx) {
 		}
 		if c.S.Programs%20000 == 1 {
 			c.Sample(map[string]any{"tag": tag, "value": wv, "arguments": show(wargs), "required": wreq})
+		}
+	})
+}
+
+// ---- the required/optional clause for every way a tag reaches the container
+
+type c19PointCase struct {
+	Tag     string `json:"tag"`     // argument part of the tag (the value part is empty or the tag's key)
+	Scanner string `json:"scanner"` // wire | user-tag | user-extract
+	ReqDflt bool   `json:"scanner_required_default"`
+}
+
+// c19UserScanner scans the struct tag `inj` (or hands out tags through ExtractHandler) as a
+// component-typed injection point that no processor resolves.
+type c19UserScanner struct {
+	processors.DefaultTagScanDefinitionRegistryPostProcessor
+}
+
+func (*c19UserScanner) Naming() string { return "zz-c19scanner" }
+
+func c19Points(c *core.Ctx) {
+	gen := func(yield func(c19PointCase) bool) {
+		var args []string
+		for _, r := range []string{"", ",required", ",required=true", ",required=false", ",required=False", ",required=0", ",Required=false", ",required=false true", ",required=true false", ",required=[false]"} {
+			for _, q := range []string{"", ",qualifier=x", ",x=false"} {
+				args = append(args, r+q, q+r)
+			}
+		}
+		seen := map[string]bool{}
+		for _, a := range args {
+			if seen[a] {
+				continue
+			}
+			seen[a] = true
+			if !yield(c19PointCase{Tag: a, Scanner: "wire", ReqDflt: true}) {
+				return
+			}
+			for _, sc := range []string{"user-tag", "user-extract"} {
+				for _, d := range []bool{true, false} {
+					if !yield(c19PointCase{Tag: a, Scanner: sc, ReqDflt: d}) {
+						return
+					}
+				}
+			}
+		}
+	}
+	tMissing := reflect.TypeOf((*scen.Missing)(nil)).Elem()
+	Cases(c, gen, func(c *core.Ctx, cs c19PointCase) {
+		tagName := "wire"
+		if cs.Scanner != "wire" {
+			tagName = "inj"
+		}
+		field := reflect.StructField{Name: "X", Type: tMissing}
+		if cs.Scanner != "user-extract" {
+			field.Tag = reflect.StructTag(tagName + ":" + strconv.Quote(cs.Tag))
+		}
+		ht := reflect.StructOf([]reflect.StructField{field})
+		h := reflect.New(ht)
+		comps := []any{h.Interface()}
+		if cs.Scanner != "wire" {
+			s := &c19UserScanner{}
+			s.NodeType = cd.PropertyTypeComponent
+			s.Required = cs.ReqDflt
+			if cs.Scanner == "user-tag" {
+				s.Tag = "inj"
+			} else {
+				s.ExtractHandler = func(meta *cd.Meta, f *cd.Field) (string, string, bool) {
+					if meta.Type != reflect.PointerTo(ht) || f.StructField.Name != "X" {
+						return "", "", false
+					}
+					return "inj", cs.Tag, true
+				}
+			}
+			comps = append(comps, s)
+		}
+		o := scen.Start(scen.StartSpec{Ch: envx.Fixed("", nil), Comps: comps})
+		c.S.Evaluations++
+		c.S.Programs++
+		c.S.States++
+		c.S.Transitions += int64(o.Trace.Calls)
+		c.S.Nontrivial++
+		_, _, wantReq := c19Ref(cs.Tag)
+		key := "C19/point/" + core.Hash(cs)
+		desc := fmt.Sprintf("point %s:%q without any candidate, scanned by %s (scanner default required=%v)", tagName, cs.Tag, cs.Scanner, cs.ReqDflt)
+		switch {
+		case o.Panic != "" || o.Abort != "" || len(o.ChildPanics) > 0:
+			c.Outcome("panic")
+			c.Report(key, "panic", desc+": start-up panicked / did not terminate: "+o.Panic+o.Abort, cs)
+		case wantReq && o.Err == nil:
+			c.Outcome("required-but-started")
+			c.Report(key, "wrong-required", desc+": the point is required (only an explicit required=false makes a point optional) but start-up succeeded with the field empty", cs)
+		case !wantReq && o.Err != nil:
+			c.Outcome("optional-but-failed")
+			c.Report(key, "wrong-required", desc+": the point is optional but start-up failed: "+scen.FirstLine(o.Err), cs)
+		case !h.Elem().Field(0).IsNil():
+			c.Outcome("set")
+			c.Report(key, "wrong-required", desc+": the field was set although nothing can satisfy it", cs)
+		default:
+			c.Outcome(fmt.Sprintf("%s/required=%v", cs.Scanner, wantReq))
+		}
+		if c.S.Programs%50 == 1 {
+			c.Sample(map[string]any{"case": cs, "required": wantReq, "failed": o.Err != nil})
 		}
 	})
 }
